@@ -259,6 +259,11 @@ func (ex *Exec) mapTypeOfExpr(fc *FuncContract, fn *ssa.Function, cc *ssa.CallCo
 
 func (ex *Exec) paramTypes(fn *ssa.Function, cc *ssa.CallCommon) map[string]types.Type {
 	env := map[string]types.Type{}
+	if fn != nil {
+		for _, fv := range fn.FreeVars {
+			env[fv.Name()] = fv.Type()
+		}
+	}
 	if fn != nil && len(fn.Params) > 0 {
 		for _, p := range fn.Params {
 			env[p.Name()] = p.Type()
@@ -426,6 +431,7 @@ func (ex *Exec) call(in *ssa.Call, cc *ssa.CallCommon, r Term) {
 		v := c.freshVal(rt, ex.nm(hint))
 		v.Typ = rt
 		c.assume(ex.v.wfAssume(c, v))
+		ex.noteRefs(v)
 		return v
 	}
 	pos := cc.Pos()
@@ -508,9 +514,16 @@ func (ex *Exec) call(in *ssa.Call, cc *ssa.CallCommon, r Term) {
 	if fn == nil {
 		// call through a function value
 		fv := ex.val(cc.Value)
-		if mc, ok := ex.top.closureVals[fv.T]; ok && ex.depth < 3 {
-			setRes(ex.inline(mc.Fn.(*ssa.Function), args, mc.Bindings, r, resType()))
-			return
+		if mc, ok := ex.top.closureVals[fv.T]; ok {
+			cfn := mc.Fn.(*ssa.Function)
+			if fc := ex.contractFor(cfn); fc != nil && fc.Options["inline"] == "" && (len(fc.Ensures) > 0 || len(fc.Requires) > 0) {
+				setRes(ex.applyContract(fc, cfn, cc, Val{}, args, r, pos, resType()))
+				return
+			}
+			if ex.depth < 3 {
+				setRes(ex.inline(cfn, args, mc.Bindings, r, resType()))
+				return
+			}
 		}
 		c.dropped["call through function value: havoc-all"] = true
 		ex.havocAllKeepPrivate()
@@ -611,6 +624,26 @@ func (ex *Exec) applyContract(fc *FuncContract, fn *ssa.Function, cc *ssa.CallCo
 	}
 	pre := &Env{c: c, v: ex.v, vars: map[string]Val{}, mem: ex.cur.clone(), pkg: ex.v.pkgOf(fc.Pkg)}
 	ex.bindParams(pre, fn, cc, recv, args)
+	if fn != nil && len(fn.FreeVars) > 0 {
+		// a closure under contract: its free variables are the bindings of
+		// the closure value being called
+		var bindings []ssa.Value
+		if mc, ok := cc.Value.(*ssa.MakeClosure); ok {
+			bindings = mc.Bindings
+		} else if fv, ok := ex.vals[cc.Value]; ok {
+			if mc, ok := ex.top.closureVals[fv.T]; ok && mc.Fn == fn {
+				bindings = mc.Bindings
+			}
+		}
+		if len(bindings) != len(fn.FreeVars) {
+			unsup("contract %s: closure bindings not available at the call", calleeDisp)
+		}
+		for i, fv := range fn.FreeVars {
+			bv := ex.val(bindings[i])
+			bv.Typ = fv.Type()
+			pre.vars[fv.Name()] = bv
+		}
+	}
 	for _, l := range fc.Lets {
 		v, err := pre.Value(l.E)
 		if err != nil {
@@ -638,6 +671,17 @@ func (ex *Exec) applyContract(fc *FuncContract, fn *ssa.Function, cc *ssa.CallCo
 		if at, err := pre.Bool(rq.E); err == nil {
 			c.assume(imp(r, at))
 		}
+	}
+	// termination of direct recursion: the measure of the callee's arguments
+	// is non-negative and strictly below the measure at entry
+	if fc.Decreases != nil && fn != nil && fn == ex.fn && ex.entryEnv != nil {
+		nv, err1 := pre.Value(fc.Decreases.E)
+		ov, err2 := ex.entryEnv.Value(fc.Decreases.E)
+		if err1 != nil || err2 != nil {
+			unsup("contract %s decreases: %v %v", calleeDisp, err1, err2)
+		}
+		goal := and(app("bvsle", bvLit(64, 0), nv.T), app("bvslt", nv.T, ov.T))
+		ex.addObl("decreases:"+calleeDisp, "", r, goal, cc.Pos(), fc.Decreases.Text, false)
 	}
 	// effect
 	if !fc.HasMod {
@@ -671,6 +715,7 @@ func (ex *Exec) applyContract(fc *FuncContract, fn *ssa.Function, cc *ssa.CallCo
 		rv := c.freshVal(sig.Results().At(i).Type(), ex.nm("r_"+sanitize(fc.Name)))
 		rv.Typ = sig.Results().At(i).Type()
 		c.assume(ex.v.wfAssume(c, rv))
+		ex.noteRefs(rv)
 		rvals = append(rvals, rv)
 		post.vars[fmt.Sprintf("result%d", i)] = rv
 		if n := sig.Results().At(i).Name(); n != "" && n != "_" {
@@ -749,7 +794,6 @@ func (ex *Exec) bindParams(env *Env, fn *ssa.Function, cc *ssa.CallCommon, recv 
 // fieldRegion resolves fieldmem(T.f): memory keys and the address tags of
 // the cells of field f in any object of struct type T.
 func (ex *Exec) fieldRegion(pkg *types.Package, m string) map[string][]int {
-	c := ex.c
 	arg := strings.TrimSuffix(strings.TrimPrefix(m, "fieldmem("), ")")
 	k := strings.LastIndex(arg, ".")
 	if k < 0 {
@@ -763,27 +807,73 @@ func (ex *Exec) fieldRegion(pkg *types.Package, m string) map[string][]int {
 	if !ok {
 		unsup("%s: not a struct", m)
 	}
-	out := map[string][]int{}
 	for i := 0; i < st.NumFields(); i++ {
-		if st.Field(i).Name() != arg[k+1:] {
-			continue
+		if st.Field(i).Name() == arg[k+1:] {
+			return ex.fieldRegionOf(t, i)
 		}
-		for _, cl := range c.cells(c.fieldAddr("0", t, i), st.Field(i).Type()) {
-			head := cl.addr[1:]
-			if j := strings.Index(head, "| "); j >= 0 {
-				head = head[:j+1]
-			}
-			id := c.faIDs[head]
-			for li, s := range c.leafSorts(cl.t) {
-				c.memGet(ex.cur, cl.t, li, s)
-				key := c.memName(cl.t, li)
-				out[key] = append(out[key], id)
-			}
-		}
-		return out
 	}
 	unsup("%s: no such field", m)
 	return nil
+}
+
+// fieldRegionOf: the memory keys and address tags of the cells of field i of
+// struct type t.
+func (ex *Exec) fieldRegionOf(t types.Type, i int) map[string][]int {
+	c := ex.c
+	st := t.Underlying().(*types.Struct)
+	out := map[string][]int{}
+	for _, cl := range c.cells(c.fieldAddr("0", t, i), st.Field(i).Type()) {
+		head := cl.addr[1:]
+		if j := strings.Index(head, "| "); j >= 0 {
+			head = head[:j+1]
+		}
+		id := c.faIDs[head]
+		for li, s := range c.leafSorts(cl.t) {
+			c.memGet(ex.cur, cl.t, li, s)
+			key := c.memName(cl.t, li)
+			out[key] = append(out[key], id)
+		}
+	}
+	return out
+}
+
+// staticFieldRegion over-approximates a modified cell `x.f` whose base is not
+// available (computed inside a loop) by the region of field f in any object
+// of the static struct type of x.
+func (ex *Exec) staticFieldRegion(fc *FuncContract, fn *ssa.Function, cc *ssa.CallCommon, m string) (map[string][]int, bool) {
+	e, err := ParseExpr(m)
+	if err != nil || e.Op != "sel" {
+		return nil, false
+	}
+	pkg := ex.v.pkgOf(fc.Pkg)
+	bt := ex.staticType(e.Args[0], ex.paramTypes(fn, cc), pkg)
+	if bt == nil {
+		return nil, false
+	}
+	obj, path, _ := types.LookupFieldOrMethod(bt, true, pkg, e.S)
+	if _, ok := obj.(*types.Var); !ok {
+		if n, isN := derefType(bt).(*types.Named); isN && n.Obj().Pkg() != nil {
+			obj, path, _ = types.LookupFieldOrMethod(bt, true, n.Obj().Pkg(), e.S)
+		}
+	}
+	if _, ok := obj.(*types.Var); !ok || len(path) == 0 {
+		return nil, false
+	}
+	t := derefType(bt)
+	for k, idx := range path {
+		st, ok := t.Underlying().(*types.Struct)
+		if !ok {
+			return nil, false
+		}
+		if k == len(path)-1 {
+			return ex.fieldRegionOf(t, idx), true
+		}
+		t = st.Field(idx).Type()
+		if _, isPtr := t.Underlying().(*types.Pointer); isPtr {
+			t = derefType(t)
+		}
+	}
+	return nil, false
 }
 
 func (ex *Exec) regionsOf(pkg *types.Package, regs []string) map[string][]int {
